@@ -381,6 +381,18 @@ class SimStdout:
     def readable(self):
         return False
 
+    def _seam(self, kind, n):
+        """The seam call of write() / flush(); a fault marked ``closes`` also shuts the stream
+        down (a wrapper that closes itself when its device fails), the descriptor of the
+        terminal staying open."""
+        try:
+            return self.k.seam(kind, n)
+        except BaseException:
+            f = self.k.fault
+            if f is not None and f.get("closes") and f.get("kind") == kind:
+                self.closed = True
+            raise
+
     def _deliver(self, data):
         if not data:
             return
@@ -392,10 +404,12 @@ class SimStdout:
         if not isinstance(s, str):
             raise TypeError("write() argument must be str, not %s" % type(s).__name__)
         data = s.encode("utf-8")
+        if self.closed:
+            raise ValueError("I/O operation on closed file.")
         self.write_log.append(s if (len(s) <= 24 or self.keep_full) else s[:24])
         self.call_log.append("w")
         self.pend_log.append(bytes(self.buf) if self.keep_full else b"")
-        f = self.k.seam("out.write", len(data))
+        f = self._seam("out.write", len(data))
         if f is not None:  # partial delivery
             return self._partial(f, data)
         if self.buffered:
@@ -436,9 +450,11 @@ class SimStdout:
         raise build_exc(f.get("exc", "KeyboardInterrupt"))
 
     def flush(self):
+        if self.closed:
+            raise ValueError("I/O operation on closed file.")
         self.call_log.append("f")
         self.flush_log.append(bytes(self.buf) if self.keep_full else b"")
-        f = self.k.seam("out.flush", len(self.buf))
+        f = self._seam("out.flush", len(self.buf))
         if f is not None:
             whole = bytes(self.buf)
             cut = min(max(0, f.get("cut", 0)), len(whole))
